@@ -394,6 +394,12 @@ pub fn run(scn: &MScn, oracles: &[Oracle], out: &mut Outcome, fp: &mut Fp, tr: &
                             // above; a refused access that reached a device shows up there or in the
                             // device log, and is attributed to this property)
                             let _ = (pre_kbq, pre_psr, pre_mcr);
+                            // (3b) a refused step executed nothing: in particular a refused RTI returned from
+                            // nothing (the frame depth is the model's: unchanged under virtual traps, plus the
+                            // exception entry under real traps)
+                            if w.sim.frame_stack.len() != m.depth {
+                                fail!("protection-frame-depth", format!("refused {} at x{:04X}: frame depth {} , model {}", info.class, m.prefetch_pc(), w.sim.frame_stack.len(), m.depth));
+                            }
                             // (4) observer shows nothing outside user space for a refused virtual step
                             if !m.real_traps {
                                 for (a, s) in &acc {
